@@ -376,6 +376,40 @@ func (c *Ctx) c11Decide(sites []partialSite, tb *ir.TB) {
 		}
 		return true
 	}
+	// environments of a validator function: its parameters bound to the arguments of each call chain
+	// inside the validator's call tree (a rule helper shared by several kinds of entries is judged per caller)
+	var envsOf func(fn *ssa.Function, depth int) []*ir.Env
+	envsOf = func(fn *ssa.Function, depth int) []*ir.Env {
+		var sites []*ssa.Call
+		for _, s := range c.StaticCallers(fn) {
+			if call, ok := s.(*ssa.Call); ok && vtree[s.Parent()] {
+				sites = append(sites, call)
+			}
+		}
+		if len(sites) < 2 || depth >= 3 {
+			return []*ir.Env{nil} // unique callers are resolved by the term builder itself
+		}
+		var out []*ir.Env
+		for _, call := range sites {
+			for _, outer := range envsOf(call.Parent(), depth+1) {
+				if e := tb.EnvOfCall(call, outer); e != nil {
+					out = append(out, e)
+				}
+			}
+		}
+		if len(out) == 0 {
+			return []*ir.Env{nil}
+		}
+		return out
+	}
+	termHasIn := func(v ssa.Value, fn *ssa.Function, needle string) bool {
+		for _, env := range envsOf(fn, 0) {
+			if strings.Contains(tb.Of(v, env).String(), needle) {
+				return true
+			}
+		}
+		return false
+	}
 	findCheck := func(check string) (string, bool) {
 		parts := strings.SplitN(check, ":", 3)
 		for _, fn := range c.SortedFuncs(vtree) {
@@ -387,7 +421,7 @@ func (c *Ctx) c11Decide(sites []partialSite, tb *ir.TB) {
 					case "lenpos":
 						isLenOf := func(v ssa.Value) bool {
 							call, ok := v.(*ssa.Call)
-							return ok && ir.Callee(call).Builtin == "len" && strings.Contains(tb.Of(call.Call.Args[0], nil).String(), "field:"+parts[1])
+							return ok && ir.Callee(call).Builtin == "len" && termHasIn(call.Call.Args[0], fn, "field:"+parts[1])
 						}
 						hit = ir.HasFact(fs, token.LEQ, func(x, y ssa.Value) bool { k, ok := ir.ConstInt(y); return ok && k == 0 && isLenOf(x) }) ||
 							ir.HasFact(fs, token.LSS, func(x, y ssa.Value) bool { k, ok := ir.ConstInt(y); return ok && k == 1 && isLenOf(x) }) ||
@@ -404,7 +438,7 @@ func (c *Ctx) c11Decide(sites []partialSite, tb *ir.TB) {
 							if why := c.idExistsHelper(ir.Callee(call).Static, tb); why != "" {
 								return false
 							}
-							return strings.Contains(tb.Of(call.Call.Args[0], nil).String(), "field:"+parts[2])
+							return termHasIn(call.Call.Args[0], fn, "field:"+parts[2])
 						})
 					case "bothnil":
 						d := ir.HasFact(fs, token.EQL, func(x, y ssa.Value) bool { return ir.IsNilConst(y) && tb.Of(x, nil).Op == "field:Direct" })
@@ -639,6 +673,41 @@ func (c *Ctx) ruleDispatch(tb *ir.TB) {
 					}
 					lt := tb.Of(call.Call.Args[0], nil)
 					if lt.Op != "list" {
+						// a literal table of rows: the boolean stored into each row
+						if sl, ok := ir.Resolve(call.Call.Args[0]).(*ssa.Slice); ok {
+							if al, ok := sl.X.(*ssa.Alloc); ok && al.Referrers() != nil {
+								var rows []*ir.Term
+								for _, r := range *al.Referrers() {
+									ia, ok := r.(*ssa.IndexAddr)
+									if !ok || ia.Referrers() == nil {
+										continue
+									}
+									for _, r2 := range *ia.Referrers() {
+										var st *ssa.Store
+										switch x := r2.(type) {
+										case *ssa.Store:
+											st = x
+										case *ssa.FieldAddr:
+											if x.Referrers() != nil {
+												for _, r3 := range *x.Referrers() {
+													if s3, ok := r3.(*ssa.Store); ok {
+														if b, ok := s3.Val.Type().Underlying().(*types.Basic); ok && b.Kind() == types.Bool {
+															st = s3
+														}
+													}
+												}
+											}
+										}
+										if st != nil {
+											rows = append(rows, tb.Of(st.Val, nil))
+										}
+									}
+								}
+								lt = &ir.Term{Op: "list", Args: rows}
+							}
+						}
+					}
+					if lt.Op != "list" {
 						return
 					}
 					for _, e := range lt.Args {
@@ -747,13 +816,52 @@ func isBoolCounter(f *ssa.Function) bool {
 	if !ok {
 		return false
 	}
-	if b, ok := sl.Elem().Underlying().(*types.Basic); !ok || b.Kind() != types.Bool {
+	switch e := sl.Elem().Underlying().(type) {
+	case *types.Basic:
+		if e.Kind() != types.Bool {
+			return false
+		}
+	case *types.Struct:
+		// a table of (label, present) rows: exactly one boolean field
+		nb := 0
+		for i := 0; i < e.NumFields(); i++ {
+			if b, ok := e.Field(i).Type().Underlying().(*types.Basic); ok && b.Kind() == types.Bool {
+				nb++
+			}
+		}
+		if nb != 1 {
+			return false
+		}
+	default:
 		return false
 	}
 	fromParam := func(v ssa.Value) bool {
 		v = ir.Resolve(v)
 		switch x := v.(type) {
+		case *ssa.Field:
+			// the boolean field of a row copied out of the table
+			if u, ok := ir.Resolve(x.X).(*ssa.UnOp); ok {
+				if ia, ok := u.X.(*ssa.IndexAddr); ok {
+					return ir.Root(ia.X) == ssa.Value(f.Params[0])
+				}
+			}
 		case *ssa.UnOp:
+			if fa, ok := x.X.(*ssa.FieldAddr); ok {
+				if ia, ok := fa.X.(*ssa.IndexAddr); ok {
+					return ir.Root(ia.X) == ssa.Value(f.Params[0])
+				}
+				// the row was copied into a local first (range value variable)
+				if al, ok := fa.X.(*ssa.Alloc); ok {
+					stores := ir.StoresTo(al)
+					if len(stores) == 1 {
+						if u, ok := ir.Resolve(stores[0].Val).(*ssa.UnOp); ok {
+							if ia, ok := u.X.(*ssa.IndexAddr); ok {
+								return ir.Root(ia.X) == ssa.Value(f.Params[0])
+							}
+						}
+					}
+				}
+			}
 			if ia, ok := x.X.(*ssa.IndexAddr); ok {
 				return ir.Root(ia.X) == ssa.Value(f.Params[0])
 			}
@@ -808,6 +916,11 @@ func isBoolCounter(f *ssa.Function) bool {
 				if c, ok := x.(*ssa.Call); ok && ir.Callee(c).Builtin == "len" {
 					continue
 				}
+				if st, ok := x.(*ssa.Store); ok {
+					if al, ok := st.Addr.(*ssa.Alloc); ok && !al.Heap {
+						continue // copy of a row into a local
+					}
+				}
 				return false
 			}
 		}
@@ -843,18 +956,79 @@ func (c *Ctx) ruleCycle(vtree map[*ssa.Function]bool, tb *ir.TB, rejects func(*s
 		c.R.Undecided("R-cycle", "detector", "configuration.Validate", "-", "the validator's call tree no longer uses tarjan.Connections: the cycle detection was replaced by an algorithm this check has no summary for, so acyclicity of accepted curve graphs (and hence termination of nested Evaluate) cannot be decided")
 		return
 	}
-	// components with more than one member are rejected
+	// the functions the graph flows through on its way to the detector: tfn, and callers that hand their
+	// own map parameter on to such a function
+	cycleFns := map[*ssa.Function]bool{tfn: true}
+	for changed := true; changed; {
+		changed = false
+		for _, fn := range c.SortedFuncs(vtree) {
+			if cycleFns[fn] {
+				continue
+			}
+			Calls(fn, func(cc ssa.CallInstruction) {
+				if st := ir.Callee(cc).Static; st != nil && cycleFns[st] {
+					for _, a := range cc.Common().Args {
+						if p, ok := ir.Resolve(a).(*ssa.Parameter); ok && p.Parent() == fn {
+							if _, isMap := p.Type().Underlying().(*types.Map); isMap && !cycleFns[fn] {
+								cycleFns[fn] = true
+								changed = true
+							}
+						}
+					}
+				}
+			})
+		}
+	}
+	// components with more than one member are rejected: in the detector itself, or - when the detector
+	// returns the offending component instead of an error - by every caller on `result != nil`
+	isSccLen := func(x ssa.Value) bool {
+		call, isLen := x.(*ssa.Call)
+		return isLen && ir.Callee(call).Builtin == "len" && termHasCall(tb.Of(call.Call.Args[0], nil), "tarjan.Connections")
+	}
+	var rejectsOrWitness func(fn *ssa.Function, e edge, depth int) bool
+	rejectsOrWitness = func(fn *ssa.Function, e edge, depth int) bool {
+		if errResultIndex(fn) >= 0 {
+			return rejects(fn, e)
+		}
+		if fn.Signature.Results().Len() != 1 || depth > 2 {
+			return false
+		}
+		// every return reachable from the edge hands back the component (non-nil: its length exceeds 1)
+		for _, rv := range returnsFrom([]ir.Point{ir.EdgeStart(e.b, e.si)}, ir.Search{StopEdge: func(b *ssa.BasicBlock, si int) bool { return b.Succs[si].Dominates(b) }}) {
+			if !termHasCall(tb.Of(ir.ResultVia(rv.ret, 0, rv.via), nil), "tarjan.Connections") {
+				return false
+			}
+		}
+		// and every caller in the validator turns a non-nil result into an error
+		n := 0
+		for _, site := range c.StaticCallers(fn) {
+			call, ok := site.(*ssa.Call)
+			if !ok || !vtree[site.Parent()] {
+				continue
+			}
+			n++
+			caller := site.Parent()
+			okSite := false
+			for _, b := range caller.Blocks {
+				for si := range b.Succs {
+					if ir.HasFact(ir.EdgeFacts(b, si), token.NEQ, func(x, y ssa.Value) bool { return ir.Resolve(x) == ssa.Value(call) && ir.IsNilConst(y) }) && rejectsOrWitness(caller, edge{b, si}, depth+1) {
+						okSite = true
+					}
+				}
+			}
+			if !okSite {
+				return false
+			}
+		}
+		return n > 0
+	}
 	okRej := false
 	for _, b := range tfn.Blocks {
 		for si := range b.Succs {
-			isSccLen := func(x ssa.Value) bool {
-				call, isLen := x.(*ssa.Call)
-				return isLen && ir.Callee(call).Builtin == "len" && termHasCall(tb.Of(call.Call.Args[0], nil), "tarjan.Connections")
-			}
 			fs := ir.EdgeFacts(b, si)
 			if (ir.HasFact(fs, token.GTR, func(x, y ssa.Value) bool { k, ok := ir.ConstInt(y); return ok && k == 1 && isSccLen(x) }) ||
 				ir.HasFact(fs, token.GEQ, func(x, y ssa.Value) bool { k, ok := ir.ConstInt(y); return ok && k == 2 && isSccLen(x) }) ||
-				ir.HasFact(fs, token.NEQ, func(x, y ssa.Value) bool { k, ok := ir.ConstInt(y); return ok && k == 1 && isSccLen(x) })) && rejects(tfn, edge{b, si}) {
+				ir.HasFact(fs, token.NEQ, func(x, y ssa.Value) bool { k, ok := ir.ConstInt(y); return ok && k == 1 && isSccLen(x) })) && rejectsOrWitness(tfn, edge{b, si}, 0) {
 				okRej = true
 			}
 		}
@@ -878,7 +1052,7 @@ func (c *Ctx) ruleCycle(vtree map[*ssa.Function]bool, tb *ir.TB, rejects func(*s
 			if refs := mu.Map.Referrers(); refs != nil {
 				for _, r := range *refs {
 					if call, ok := r.(*ssa.Call); ok {
-						if call == tarjanCall || ir.Callee(call).Static == tfn {
+						if call == tarjanCall || cycleFns[ir.Callee(call).Static] {
 							passes = true
 						}
 					}
@@ -897,13 +1071,45 @@ func (c *Ctx) ruleCycle(vtree map[*ssa.Function]bool, tb *ir.TB, rejects func(*s
 	keyOK := kt.Has(func(x *ir.Term) bool { return x.Op == "field:ID" })
 	// the value: a slice appended once per element of Function.Curves
 	valOK := isMemberTerm(vt) && vt.Has(func(x *ir.Term) bool { return x.Op == "builtin:append" })
+	// the edge list may be built by a helper of the validator and handed back as its result
+	edgeFn := graphFn
+	if !valOK {
+		for _, fn := range c.SortedFuncs(vtree) {
+			if fn == graphFn || fn.Signature.Results().Len() == 0 {
+				continue
+			}
+			returnsEdges := false
+			for _, rt := range ir.Returns(fn) {
+				t := tb.Of(rt.Results[0], nil)
+				if isMemberTerm(t) && t.Has(func(x *ir.Term) bool { return x.Op == "builtin:append" }) {
+					returnsEdges = true
+				}
+			}
+			if !returnsEdges {
+				continue
+			}
+			// ... and the update stores that helper's result
+			stored := false
+			switch x := ir.Resolve(update.Value).(type) {
+			case *ssa.Call:
+				stored = ir.Callee(x).Static == fn
+			case *ssa.Extract:
+				if tc, ok := x.Tuple.(*ssa.Call); ok && x.Index == 0 {
+					stored = ir.Callee(tc).Static == fn
+				}
+			}
+			if stored {
+				valOK, edgeFn = true, fn
+			}
+		}
+	}
 	if keyOK && valOK {
 		c.R.Ok("R-cycle", "graph", c.FK(graphFn), c.P.Pos(update.Pos()), "graph[curve id] = list appended with every element of function.curves")
 	} else {
 		c.R.Bad("R-cycle", "graph", c.FK(graphFn), c.P.Pos(update.Pos()), sprintf("the graph entry is not (curve id -> all members): key from ID=%v, value from every member=%v", keyOK, valOK))
 	}
 	// no member is skipped: from the loop body over Function.Curves every path back to the loop head passes the append or returns an error
-	skip := c.memberSkipped(graphFn, update, tb)
+	skip := c.memberSkipped(edgeFn, update, tb)
 	if skip != "" {
 		c.R.Bad("R-cycle", "every-member", c.FK(graphFn), c.P.Pos(update.Pos()), skip)
 	} else {
@@ -911,12 +1117,12 @@ func (c *Ctx) ruleCycle(vtree map[*ssa.Function]bool, tb *ir.TB, rejects func(*s
 	}
 	// self reference
 	selfOK := false
-	for _, b := range graphFn.Blocks {
+	for _, b := range edgeFn.Blocks {
 		for si := range b.Succs {
 			if ir.HasFact(ir.EdgeFacts(b, si), token.EQL, func(x, y ssa.Value) bool {
 				tx, ty := tb.Of(x, nil), tb.Of(y, nil)
 				return (tx.Op == "field:ID" && isMemberTerm(ty)) || (ty.Op == "field:ID" && isMemberTerm(tx))
-			}) && rejects(graphFn, edge{b, si}) {
+			}) && rejects(edgeFn, edge{b, si}) {
 				selfOK = true
 			}
 		}
@@ -930,8 +1136,14 @@ func (c *Ctx) ruleCycle(vtree map[*ssa.Function]bool, tb *ir.TB, rejects func(*s
 	ei := errResultIndex(graphFn)
 	retOK := false
 	for _, r := range ir.Returns(graphFn) {
-		if termHasCall(tb.Of(r.Results[ei], nil), c.FK(tfn)[strings.LastIndex(c.FK(tfn), ".")+1:]) || termHasCall(tb.Of(r.Results[ei], nil), "tarjan.Connections") {
+		rt := tb.Of(r.Results[ei], nil)
+		if termHasCall(rt, "tarjan.Connections") {
 			retOK = true
+		}
+		for cf := range cycleFns {
+			if termHasCall(rt, c.FK(cf)[strings.LastIndex(c.FK(cf), ".")+1:]) {
+				retOK = true
+			}
 		}
 	}
 	if retOK || graphFn == tfn {
